@@ -3,6 +3,7 @@
 -/
 import CorgiProofs.PathSum
 import CorgiProofs.Instances
+import CorgiProofs.ShapeCheckSound
 
 set_option linter.unusedSectionVars false
 
@@ -69,9 +70,29 @@ theorem C17_homogeneous [AddLaws S] {G : Graph S} (sem : Sem G) (wf : G.WF) (law
 example : chain2.WF ∧ chain2.Lawful := ⟨chain2_wf, chain2_lawful⟩
 example : Shaped (chain2Sem.dimsOf 3) (⟨[1], [5]⟩ : Tensor Int) := ⟨rfl, rfl⟩
 
+/-- **Additivity in the seed, of the stored closures themselves.**  In any good state that passes the
+    shape check (`ShapeOK`; see C01), for the gradient of any leaf `ℓ`: the change produced by a pass from
+    `root` with the seed `s₁ + s₂` is the sum of the changes produced with `s₁` and with `s₂` — with no
+    assumption about the operations: every built-in closure was proved additive (`vjp_lin`). -/
+theorem C17_additive_stored_closures [AddLaws S] [MulLaws S] {σ : State S} (g : Good σ) (hs : ShapeOK σ)
+    (ℓ j root : Nat) (hleaf : σ.graph.kids ℓ = []) (hroot : root < σ.nodes.size) (dims : List Nat) (keep : Bool)
+    (hg : ∀ t, σ.estate.grad ℓ = some t → Shaped (σ.dimsOf ℓ) t)
+    (s₁ s₂ : Tensor S) (h₁ : Shaped (σ.dimsOf root) s₁) (h₂ : Shaped (σ.dimsOf root) s₂) (e₁ e₂ e₃ : EState S)
+    (ok₁ : backward σ.graph (σ.nodes.size + 1) root dims keep (some s₁) σ.estate = .ok e₁)
+    (ok₂ : backward σ.graph (σ.nodes.size + 1) root dims keep (some s₂) σ.estate = .ok e₂)
+    (ok₃ : backward σ.graph (σ.nodes.size + 1) root dims keep (some (tadd s₁ s₂)) σ.estate = .ok e₃) :
+    gradVal ℓ j e₃ = gradVal ℓ j σ.estate
+        + (P (σ.sem (fun _ => keep) g.heap hs) ℓ j root s₁ + P (σ.sem (fun _ => keep) g.heap hs) ℓ j root s₂) ∧
+    gradVal ℓ j e₁ = gradVal ℓ j σ.estate + P (σ.sem (fun _ => keep) g.heap hs) ℓ j root s₁ ∧
+    gradVal ℓ j e₂ = gradVal ℓ j σ.estate + P (σ.sem (fun _ => keep) g.heap hs) ℓ j root s₂ :=
+  C17_additive (σ.sem (fun _ => keep) g.heap hs) (graph_wf σ g.heap) (graph_lawful σ g.heap) ℓ j (σ.nodes.size + 1) root
+    (fun n s _ _ _ => by simp [stores, hleaf]) (by omega) dims σ.estate e₁ e₂ e₃ (estate_clean σ g.heap) rfl hg
+    s₁ s₂ h₁ h₂ ok₁ ok₂ ok₃
+
 end Corgi
 
 #print axioms Corgi.C17_default
 #print axioms Corgi.C17_ones_exists
 #print axioms Corgi.C17_additive
 #print axioms Corgi.C17_homogeneous
+#print axioms Corgi.C17_additive_stored_closures
